@@ -18,10 +18,12 @@ FORMS = ["inline", "where", "impl", "split", "dup", "relaxed", "implrelaxed"]   
 MOCKS = ["none", "mockall", "mockall_false", "api_only", "unimock", "unimock_false", "mockall_unimock_false", "api_mockall_false"]
 # two of the three bounds are instantiations of ONE generic trait: a bound is its whole path, generic arguments included
 BN = ["B0", "G<u8>", "G<u16>"]
+# second naming scheme: two DIFFERENT traits whose paths end in the same segment (a bound is its whole path, not its last segment)
+BN2 = ["ma::Rep", "mb::Rep", "G<u16>"]
 
 
 def header():
-    L = ["pub mod pr {", "    use super::rt;", "    pub trait B0 {} pub trait G<T> {}"]
+    L = ["pub mod pr {", "    use super::rt;", "    pub trait B0 {} pub trait G<T> {}", "    pub mod ma { pub trait Rep {} } pub mod mb { pub trait Rep {} }"]
     field = {"full": "()", "bare": "rt::BareMarker", "notsync": "rt::NotSyncMarker"}
     for mask in range(8):
         for fl in FLAVS:
@@ -30,12 +32,17 @@ def header():
             for b in range(3):
                 if mask & (1 << b):
                     L.append("    impl %s for %s {} impl %s for ::entrait::Impl<%s> {}" % (BN[b], t, BN[b], t))
+                    if BN2[b] != BN[b]:
+                        L.append("    impl %s for %s {} impl %s for ::entrait::Impl<%s> {}" % (BN2[b], t, BN2[b], t))
     L.append("}")
     return "\n".join(L) + "\n"
 
 
+SCHEME = [BN]
+
+
 def bounds(mask):
-    return [BN[b] for b in range(3) if mask & (1 << b)]
+    return [SCHEME[0][b] for b in range(3) if mask & (1 << b)]
 
 
 def fn_src(name, mask, form, byval, vis="pub ", asy=False):
@@ -93,6 +100,17 @@ def enumerate_states(tier):
         for feature in ((False, True) if tier == "thorough" else (False,)):
             states.append(dict(key="b_mod_%d_%d_%s%s_%s_%s" % (m1, m2, "v" if bv[0] else "r", "v" if bv[1] else "r", mock, "fon" if feature else "foff"),
                                container="mod", s1=m1, s2=m2, byval=list(bv), mock=mock, feature=feature))
+            if mock == "none" and not feature:
+                # the same module with the second naming scheme, and with an (enabled) #[cfg] on each of the two functions in turn
+                states.append(dict(key="b_mod_%d_%d_%s%s_n2" % (m1, m2, "v" if bv[0] else "r", "v" if bv[1] else "r"),
+                                   container="mod", s1=m1, s2=m2, byval=list(bv), mock=mock, feature=feature, scheme=2))
+                if m1 in (0, 3) and m2 in (0, 5):
+                    for which in (1, 2):
+                        states.append(dict(key="b_mod_%d_%d_%s%s_cfg%d" % (m1, m2, "v" if bv[0] else "r", "v" if bv[1] else "r", which),
+                                           container="mod", s1=m1, s2=m2, byval=list(bv), mock=mock, feature=feature, cfg_on=which))
+    for mask, form, byval in itertools.product(range(8), ("inline", "where", "impl", "split"), (False, True)):
+        states.append(dict(key="b_fn_%d_%s_%s_n2" % (mask, form, "val" if byval else "ref"), container="fn", s1=mask, form=form, byval=[byval],
+                           mock="none", feature=False, asy=False, scheme=2))
     if tier == "thorough":
         for m1, m2, m3 in itertools.product(range(8), repeat=3):
             states.append(dict(key="b_mod3_%d_%d_%d" % (m1, m2, m3), container="mod3", s1=m1, s2=m2, s3=m3, byval=[False, False, False],
@@ -133,13 +151,22 @@ def model(s):
 
 def render(s):
     key = s["key"]
+    SCHEME[0] = BN2 if s.get("scheme") == 2 else BN
+    try:
+        return render_(s)
+    finally:
+        SCHEME[0] = BN
+
+
+def render_(s):
+    key = s["key"]
     L = ["mod %s {" % key, "    use super::rt;", "    use super::pr::*;"]
     if s["container"] == "fn" or s["container"] == "static":
         L += ["    " + attr(s["mock"], s.get("asy") == "ms"), "    " + fn_src("f", s["s1"], s["form"], s["byval"][0], asy=bool(s.get("asy")))]
     else:
         L += ["    " + attr(s["mock"]), "    pub mod m {", "        use super::*;",
-              "        " + fn_src("f1", s["s1"], "inline", s["byval"][0]),
-              "        " + fn_src("f2", s["s2"], "where", s["byval"][1])]
+              "        " + ("#[cfg(all())] " if s.get("cfg_on") == 1 else "") + fn_src("f1", s["s1"], "inline", s["byval"][0]),
+              "        " + ("#[cfg(all())] " if s.get("cfg_on") == 2 else "") + fn_src("f2", s["s2"], "where", s["byval"][1])]
         if s["container"] == "mod3":
             L.append("        " + fn_src("f3", s["s3"], "impl", s["byval"][2]))
         L.append("    }")
@@ -211,7 +238,8 @@ def evaluate(states, report, tier):
             for sig, detail in problems:
                 tags = {"container:" + s["container"], "mock:" + s["mock"], "feature:" + ("on" if feature else "off"),
                         "byval" if any(s["byval"]) else "byref", "form:" + s.get("form", "mixed"),
-                        {False: "sync", True: "async", "ms": "async-maybe-send", None: "sync"}[s.get("asy")]}
+                        {False: "sync", True: "async", "ms": "async-maybe-send", None: "sync"}[s.get("asy")],
+                        "names:" + ("same-last-segment" if s.get("scheme") == 2 else "default"), "cfg-on-fn:%s" % (s.get("cfg_on") or "none")}
                 report.violation(s["key"], tags, sig, detail, state=s, source=engine.standalone_source(u, hdr),
                                  meta=dict(mode="run", feature=feature))
 
